@@ -20,12 +20,12 @@ Inductive case :=
 | CaseToNC (allow : list string) (rq : reqs) (its : list itype) (n : Z)
            (full : list string)                       (* InstanceTypeOptions after the call(s): the order the sort left *)
            (sent : list string) (mv : option Z)        (* instance-type requirement of the emitted NodeClaim *)
-| CaseSolve (pools : list (pool * bool))               (* every NodePool in the API with "ready, dynamic, not deleting" *)
+| CaseSolve (pools : list npool)                       (* every NodePool in the API: Ready condition, static, deleting *)
             (levels : list (list (string * outcome)))  (* per relaxation level: outcome of each pool's template alone *)
             (obs : list (Z * sobs))                     (* per worker count: what Solve did with the pod *)
 (* the same observation judged by the strict reading of the property text (a separate case so that the known
    finding attached to it can never hide a failure of the checks above) *)
-| CaseStrict (pools : list (pool * bool)) (levels : list (list (string * outcome))) (obs : list (Z * sobs)).
+| CaseStrict (pools : list npool) (levels : list (list (string * outcome))) (obs : list (Z * sobs)).
 
 Definition tag (b : bool) (t : string) : list string := if b then [] else [t].
 
@@ -137,8 +137,8 @@ Definition check_case (c : case) : list string :=
       | _, _ => ["corr:names"]
       end
   | CaseSolve pools levels obs =>
-      let eligible := map fst (filter snd pools) in
-      let ordered := order_by_weight eligible in
+      let eligible := map np_pool (filter (fun n => usable_b n) pools) in   (* by the specification, not by the template list *)
+      let ordered := scheduler_pools pools in
       let vectors := map (fun lv => map (outcome_of lv) ordered) levels in
       let want := expected_sobs ordered vectors in
       let table := map (fun lv => map (fun p => (p, outcome_of lv p)) eligible) levels in
@@ -149,8 +149,13 @@ Definition check_case (c : case) : list string :=
                 | SDeferred => deferred_ok_b table
                 | SFailed => failed_ok_b table
                 end) obs) "oracle:weight-priority"
+      ++ tag (forallb (fun o : Z * sobs =>
+                match snd o with
+                | SPlaced p => placed_ready_b pools p
+                | _ => true
+                end) obs) "oracle:pool-ready"
   | CaseStrict pools levels obs =>
-      let eligible := map fst (filter snd pools) in
+      let eligible := map np_pool (filter (fun n => usable_b n) pools) in
       let table := map (fun lv => map (fun p => (p, outcome_of lv p)) eligible) levels in
       tag (forallb (fun o : Z * sobs =>
                 match snd o with
